@@ -1197,6 +1197,265 @@ func (p *Program) c06ArgIsObject(a, X ssa.Value) bool {
 	return false
 }
 
+// ---- deferred calls on the reconciled object: "observes only"
+//
+// A deferred call runs on every way out of Reconcile, also for an archived ObjectSet. It does not
+// touch the object when everything it does with it is reading: accessor calls on the object (or on
+// what such accessors return), pure functions, and workspace functions / interface implementations
+// that in turn only read what they are given. Writing through the object, a client write, a
+// non-accessor method, handing the object to code without a body or storing it away are touches
+// (or cannot be decided). Judged identically for a deferred closure that captures the object and
+// for a deferred method that receives it as an argument.
+
+func c06RefType(t types.Type) bool {
+	switch t.Underlying().(type) {
+	case *types.Pointer, *types.Interface, *types.Slice, *types.Map:
+		return true
+	}
+	return false
+}
+
+type c06Observer struct {
+	p     *Program
+	fn    *ssa.Function
+	seed  func(ssa.Value) bool
+	holds map[*ssa.Alloc]bool // locals that hold a derived value
+	busy  map[ssa.Value]bool
+}
+
+// derived: v is the object, a view of it, or reference-typed data obtained from it by accessors.
+func (ob *c06Observer) derived(v ssa.Value) bool {
+	v = stripConv(v)
+	if v == nil || ob.busy[v] {
+		return false
+	}
+	if ob.seed(v) {
+		return true
+	}
+	ob.busy[v] = true
+	defer delete(ob.busy, v)
+	switch x := v.(type) {
+	case *ssa.Call:
+		if !c06RefType(x.Type()) {
+			return false
+		}
+		cc := x.Common()
+		if r := callRecv(cc); r != nil && ob.derived(r) && isAccessorName(calleeName(cc)) {
+			return true
+		}
+	case *ssa.UnOp:
+		if x.Op != token.MUL {
+			return false
+		}
+		if a, ok := x.X.(*ssa.Alloc); ok {
+			return ob.holds[a]
+		}
+		return c06RefType(x.Type()) && ob.derived(x.X)
+	case *ssa.TypeAssert:
+		return ob.derived(x.X)
+	case *ssa.Extract:
+		if ta, ok := x.Tuple.(*ssa.TypeAssert); ok && x.Index == 0 {
+			return ob.derived(ta.X)
+		}
+	case *ssa.Phi:
+		for _, e := range x.Edges {
+			if ob.derived(e) {
+				return true
+			}
+		}
+	case *ssa.FieldAddr:
+		return ob.derived(x.X)
+	case *ssa.IndexAddr:
+		return ob.derived(x.X)
+	case *ssa.Field:
+		return c06RefType(x.Type()) && ob.derived(x.X)
+	case *ssa.Slice:
+		return ob.derived(x.X)
+	}
+	return false
+}
+
+// c06FuncObserves: fn only reads the values selected by seed. "" when so, else why not; touch
+// reports that a modification was identified (as opposed to: cannot be decided).
+func (p *Program) c06FuncObserves(fn *ssa.Function, seed func(ssa.Value) bool, depth int) (why string, touch bool) {
+	if fn == nil || fn.Blocks == nil {
+		return "no body", false
+	}
+	ob := &c06Observer{p: p, fn: fn, seed: seed, holds: map[*ssa.Alloc]bool{}, busy: map[ssa.Value]bool{}}
+	for changed, n := true, 0; changed && n < 4; n++ {
+		changed = false
+		for _, b := range fn.Blocks {
+			for _, in := range b.Instrs {
+				if st, ok := in.(*ssa.Store); ok {
+					if a, isA := st.Addr.(*ssa.Alloc); isA && !ob.holds[a] && c06RefType(st.Val.Type()) && ob.derived(st.Val) {
+						ob.holds[a], changed = true, true
+					}
+				}
+			}
+		}
+	}
+	for _, b := range fn.Blocks {
+		for _, in := range b.Instrs {
+			switch x := in.(type) {
+			case *ssa.Store:
+				if a, isA := x.Addr.(*ssa.Alloc); isA && ob.holds[a] {
+					continue
+				}
+				if ob.derived(x.Addr) {
+					return "writes through the object at " + p.IPos(x), true
+				}
+				if c06RefType(x.Val.Type()) && ob.derived(x.Val) {
+					return "stores the object away at " + p.IPos(x), false
+				}
+			case *ssa.MapUpdate:
+				if ob.derived(x.Map) {
+					return "writes into a map of the object at " + p.IPos(x), true
+				}
+				if c06RefType(x.Value.Type()) && ob.derived(x.Value) {
+					return "stores the object away at " + p.IPos(x), false
+				}
+			case *ssa.Send:
+				if c06RefType(x.X.Type()) && ob.derived(x.X) {
+					return "sends the object away at " + p.IPos(x), false
+				}
+			case *ssa.MakeClosure:
+				if w, t := p.c06ClosureObserves(x, ob.derived, func(a *ssa.Alloc) bool { return ob.holds[a] }, depth); w != "" {
+					return w, t
+				}
+			case ssa.CallInstruction:
+				if w, t := p.c06CallObserves(x, ob.derived, func(a *ssa.Alloc) bool { return ob.holds[a] }, depth); w != "" {
+					return w, t
+				}
+			}
+		}
+	}
+	return "", false
+}
+
+// c06ClosureObserves: a closure that captures the object (by value or through the local holding it).
+func (p *Program) c06ClosureObserves(mc *ssa.MakeClosure, derived func(ssa.Value) bool, holds func(*ssa.Alloc) bool, depth int) (string, bool) {
+	fn, _ := mc.Fn.(*ssa.Function)
+	byVal, byRef := map[*ssa.FreeVar]bool{}, map[*ssa.FreeVar]bool{}
+	for i, bnd := range mc.Bindings {
+		if fn == nil || i >= len(fn.FreeVars) {
+			break
+		}
+		if a, isA := bnd.(*ssa.Alloc); isA && holds(a) {
+			byRef[fn.FreeVars[i]] = true
+		} else if c06RefType(bnd.Type()) && derived(bnd) {
+			byVal[fn.FreeVars[i]] = true
+		}
+	}
+	if len(byVal)+len(byRef) == 0 {
+		return "", false
+	}
+	if depth <= 0 {
+		return "closure " + mc.Name() + " not examined (nesting too deep)", false
+	}
+	return p.c06FuncObserves(fn, func(v ssa.Value) bool {
+		if fv, ok := v.(*ssa.FreeVar); ok {
+			return byVal[fv]
+		}
+		if u, ok := v.(*ssa.UnOp); ok && u.Op == token.MUL {
+			if fv, ok := u.X.(*ssa.FreeVar); ok {
+				return byRef[fv]
+			}
+		}
+		return false
+	}, depth-1)
+}
+
+// c06CallObserves judges one call that may receive the object.
+func (p *Program) c06CallObserves(ci ssa.CallInstruction, derived func(ssa.Value) bool, holds func(*ssa.Alloc) bool, depth int) (string, bool) {
+	cc := ci.Common()
+	recv := callRecv(cc)
+	recvDerived := recv != nil && derived(recv)
+	argDerived := make([]bool, len(cc.Args))
+	any := recvDerived
+	for i, a := range cc.Args {
+		if c06RefType(a.Type()) && derived(a) {
+			argDerived[i], any = true, true
+		}
+	}
+	mc, isClosure := cc.Value.(*ssa.MakeClosure)
+	if !any {
+		if isClosure {
+			return p.c06ClosureObserves(mc, derived, holds, depth) // `defer func() { … }()`
+		}
+		return "", false
+	}
+	name := calleeName(cc)
+	at := " at " + p.IPos(ci)
+	if w, isW := classifyWriter(Call{Instr: ci, Common: cc, Fn: ci.Parent()}); isW {
+		return "writes the object with " + w.Verb + at, true
+	}
+	if recvDerived && isAccessorName(name) {
+		return "", false
+	}
+	if recvDerived {
+		return "calls " + name + " on the object" + at, strings.HasPrefix(name, "Set") || strings.HasPrefix(name, "Remove")
+	}
+	id := calleeID(cc)
+	if pureFuncs[id] || id == "builtin:len" || id == "builtin:cap" {
+		return "", false
+	}
+	if depth <= 0 {
+		return "hands the object to " + name + at + " (not examined: nesting too deep)", false
+	}
+	if callee := staticCallee(cc); callee != nil {
+		if callee.Blocks == nil {
+			return "hands the object to " + id + at + ", which is not known to be read-only", false
+		}
+		if isClosure {
+			if w, t := p.c06ClosureObserves(mc, derived, holds, depth); w != "" {
+				return w, t
+			}
+		}
+		return p.c06FuncObserves(callee, func(v ssa.Value) bool {
+			prm, ok := v.(*ssa.Parameter)
+			if !ok {
+				return false
+			}
+			for i, q := range callee.Params {
+				if q == prm && i < len(argDerived) {
+					return argDerived[i]
+				}
+			}
+			return false
+		}, depth-1)
+	}
+	if cc.IsInvoke() {
+		iface := ifaceOf(cc.Value)
+		var impls []*ssa.Function
+		if iface != nil {
+			impls = p.implementationsOf(iface, cc.Method.Name())
+		}
+		if len(impls) == 0 {
+			return "hands the object to " + id + at + ", which has no implementation in the workspace", false
+		}
+		for _, impl := range impls {
+			impl := impl
+			w, t := p.c06FuncObserves(impl, func(v ssa.Value) bool {
+				prm, ok := v.(*ssa.Parameter)
+				if !ok {
+					return false
+				}
+				for i, q := range impl.Params {
+					if q == prm && i >= 1 && i-1 < len(argDerived) {
+						return argDerived[i-1]
+					}
+				}
+				return false
+			}, depth-1)
+			if w != "" {
+				return shortFuncID(impl) + " " + w, t
+			}
+		}
+		return "", false
+	}
+	return "hands the object to a function value" + at, false
+}
+
 func c06r5(c *Ctx) {
 	p := c.P
 	for _, fn := range p.pfFuncsInPkgs(pkgObjectSets) {
@@ -1222,6 +1481,11 @@ func c06r5(c *Ctx) {
 			})
 			return ok
 		}
+		isObj := func(v ssa.Value) bool { return p.c06ArgIsObject(v, X) }
+		isObjLocal := func(v ssa.Value) bool {
+			a, ok := v.(*ssa.Alloc)
+			return ok && p.pfRootValue(a) == X
+		}
 		for _, cc := range callsIn(fn) {
 			if cc.Instr == ssa.CallInstruction(get) {
 				continue
@@ -1238,11 +1502,30 @@ func c06r5(c *Ctx) {
 				}
 				touches = true
 			}
+			_, isDefer := cc.Instr.(*ssa.Defer)
+			if mc, isMC := cc.Common.Value.(*ssa.MakeClosure); isMC && isDefer {
+				for _, bnd := range mc.Bindings {
+					if isObjLocal(bnd) || (c06RefType(bnd.Type()) && isObj(bnd)) {
+						touches = true // `defer func() { … objectSet … }()`
+					}
+				}
+			}
 			if !touches {
 				continue
 			}
-			if _, isDefer := cc.Instr.(*ssa.Defer); isDefer {
-				c.Ob(fn, "touch:"+calleeName(cc.Common), cc.Instr, "an ObjectSet whose Archived condition is True is not touched").Unknown("deferred call on the reconciled object")
+			if isDefer {
+				// runs on every way out, also for an archived ObjectSet: must only observe the object
+				o := c.Ob(fn, "touch:"+calleeName(cc.Common), cc.Instr, "a deferred call, which also runs for an ObjectSet whose Archived condition is True, only observes the reconciled object")
+				ob := &c06Observer{p: p, fn: fn, seed: isObj, holds: map[*ssa.Alloc]bool{}, busy: map[ssa.Value]bool{}}
+				why, touch := p.c06CallObserves(cc.Instr, ob.derived, func(a *ssa.Alloc) bool { return isObjLocal(a) }, 4)
+				switch {
+				case why == "":
+					o.OK("observes only")
+				case touch:
+					o.Fail("deferred call on the reconciled object %s", why)
+				default:
+					o.Unknown("deferred call on the reconciled object: %s", why)
+				}
 				continue
 			}
 			o := c.Ob(fn, "touch:"+calleeName(cc.Common), cc.Instr, "every use of the reconciled ObjectSet after it was read happens only when its Archived condition is not True")
